@@ -494,6 +494,24 @@ impl<'a> VisitMut for MatchesPass<'a> {
 }
 
 // ---------------------------------------------------------------------------------------------
+// R21: `unreachable!()` (no arguments) -> `vx_unreachable()`, a prelude function with `requires false`: the claim
+// that the point cannot be reached becomes a proof obligation.
+struct UnreachablePass<'a> { rules: &'a mut Rules }
+impl<'a> VisitMut for UnreachablePass<'a> {
+    fn visit_expr_mut(&mut self, e: &mut Expr) {
+        if let Expr::Macro(m) = e {
+            if macro_name(&m.mac.path) == "unreachable" && m.mac.tokens.is_empty() {
+                self.rules.hit("R21.unreachable_as_obligation");
+                *e = parse_quote!(vx_unreachable());
+                return;
+            }
+        }
+        visit_mut::visit_expr_mut(self, e);
+    }
+    fn visit_item_mut(&mut self, _i: &mut Item) {}
+}
+
+// ---------------------------------------------------------------------------------------------
 // R16: `async fn` -> `fn`, `E.await` -> `E` (sequential reading of one future: the function's own
 // statements run in program order between suspension points; what other tasks do in between is not
 // modelled).  Only applied to items that ask for it (`sync_async` flag in the contract file).
@@ -717,7 +735,7 @@ impl<'a> VisitMut for WrapPass<'a> {
 // ---------------------------------------------------------------------------------------------
 // R15 (constructor used as a function value): `f(.., Enum::Variant, ..)` -> `f(.., |__vx_e: T| -> (o: R) ensures o ==
 // Enum::Variant(__vx_e) { Enum::Variant(__vx_e) }, ..)` for the constructor paths named in the contract file (eta expansion).
-struct EtaSpec { path: String, ty: String, ret: String, used: u64 }
+struct EtaSpec { path: String, ty: String, ret: String, used: u64, nospec: bool }
 struct EtaPass<'a> { rules: &'a mut Rules, specs: &'a mut Vec<EtaSpec> }
 impl<'a> EtaPass<'a> {
     fn expand(&mut self, e: &mut Expr) {
@@ -730,7 +748,8 @@ impl<'a> EtaPass<'a> {
                     let ret: TokenStream = sp.ret.parse().unwrap_or_default();
                     sp.used += 1;
                     self.rules.hit("R15.constructor_eta_expanded");
-                    *e = Expr::Verbatim(quote!(|__vx_e: #ty| -> (__vx_o: #ret) ensures __vx_o == #path(__vx_e), { #path(__vx_e) }));
+                    if sp.nospec { *e = Expr::Verbatim(quote!(|__vx_e: #ty| -> (__vx_o: #ret) { #path(__vx_e) })); }
+                    else { *e = Expr::Verbatim(quote!(|__vx_e: #ty| -> (__vx_o: #ret) ensures __vx_o == #path(__vx_e), { #path(__vx_e) })); }
                     return;
                 }
             }
@@ -1213,6 +1232,8 @@ fn process_fn(
     let spec = job.spec;
     let mut markers = Markers::new();
     filter_attrs(attrs, job.cfg, rules);
+    // R21
+    UnreachablePass { rules }.visit_block_mut(block);
     // R17 (before tagging, so that closures inside `matches!` get an ordinal)
     MatchesPass { rules }.visit_block_mut(block);
     // P0 tag
@@ -1246,7 +1267,7 @@ fn process_fn(
     // R15 constructor function values
     let mut etas: Vec<EtaSpec> = vec![];
     if let Some(Value::Array(a)) = spec.get("etas") {
-        for v in a { etas.push(EtaSpec { path: get_str(v, "path").unwrap_or_default(), ty: get_str(v, "ty").unwrap_or_default(), ret: get_str(v, "ret").unwrap_or_default(), used: 0 }); }
+        for v in a { etas.push(EtaSpec { path: get_str(v, "path").unwrap_or_default(), ty: get_str(v, "ty").unwrap_or_default(), ret: get_str(v, "ret").unwrap_or_default(), used: 0, nospec: v.get("nospec").and_then(|x| x.as_bool()).unwrap_or(false) }); }
     }
     EtaPass { rules, specs: &mut etas }.visit_block_mut(block);
     for c in &etas { if c.used == 0 { errors.push(format!("{}: lost anchor: constructor value {} not found", path, c.path)); } }
